@@ -19,10 +19,11 @@ RULE = ("file graphs: files in.scss, a.scss, b.scss, ... in one directory (plus 
         "for every ordered pair of files (self loops included) at most one load statement of kind "
         "@import/@use/@forward/meta.load-css spelled `n`, `./n` or `d/../n`. quick: every graph over 2 files (13^4) and "
         "every 3-file graph with at most 2 edges, + 1500 random 3..6-file graphs; thorough: additionally every 3-file graph "
-        "with 3 edges and 20000 random 3..6-file graphs. non-trivial = at least 2 edges and the specification does not "
+        "with 3 edges and 20000 random 3..6-file graphs; plus every 2-file graph with at most 2 edges using the spelling "
+        "`d//../n`. non-trivial = at least 2 edges and the specification does not "
         "stop at an unrelated error")
 TRUSTED = ["harness/src/ops/c02.rs (virtual loader, SCSS rendering, divergence guard: a compilation that makes more than "
-           "600 loader calls on a graph of at most 7 files is reported as diverging instead of waiting for the real stack "
+           "400 loader calls on a graph of at most 7 files is reported as diverging instead of waiting for the real stack "
            "overflow; the registered witness runs without the guard and really overflows)",
            "props/_load.py: Python statement of C02 (DFS with canonical file identity), compared with the Lean spec model "
            "on every case"]
@@ -30,11 +31,14 @@ ASSUMPTIONS = ["the loader is a parameter: POSIX path resolution without symlink
                "8 MiB stack (harness thread) for the unguarded witness"]
 
 
-def graph_case(n, edges, stratum, rng=None):
+SPELL_EMPTY = ["{n}", "d//../{n}", "./{n}"]
+
+
+def graph_case(n, edges, stratum, rng=None, spell=SPELL):
     """edges: list of (src index, dst index, kind code, spelling index), executed in list order per file"""
     files = []
     for i in range(n):
-        items = ["m"] + [k + SPELL[s].format(n=NAMES[j]) for (a, j, k, s) in edges if a == i]
+        items = ["m"] + [k + spell[s].format(n=NAMES[j]) for (a, j, k, s) in edges if a == i]
         files.append((NAMES[i] + ".scss", items))
     files.append(("d/x.scss", ["m"]))
     return Case(L.line(files), stratum, {"n": n, "edges": len(edges)})
@@ -58,6 +62,10 @@ def gen(tier, rng, boost=1):
     for edges in all_graphs(3, 2 if quick else 3):
         if any(3 > max(i, j) >= 2 for i, j, _, _ in edges) or not edges:
             yield graph_case(3, edges, "all-3-file")
+    # spellings with an empty path segment (incomplete repair of 51f269b)
+    for edges in all_graphs(2, 2):
+        if any(s == 1 for _, _, _, s in edges) and all(s < 2 for _, _, _, s in edges):
+            yield graph_case(2, edges, "empty-segment", spell=SPELL_EMPTY)
     nrand = (1500 if quick else 20000) * boost
     for _ in range(nrand):
         n = rng.randint(3, 6)
@@ -108,5 +116,5 @@ LEVEL_TEXT = ("Proof (Lean 4) over a model of Context::transform/find_file/lock_
               "(textual keys, load-css unlocking early). Tied to the code by exhaustive differential runs over file graphs "
               "(result class, loader-call trace, marker sequence).")
 LEVEL_NOTE = ("Trusted: Lean kernel; harness virtual loader and rendering; the Python statement of C02; the divergence guard "
-              "(600 loader calls) standing in for the stack overflow in generated cases.")
+              "(400 loader calls) standing in for the stack overflow in generated cases.")
 TECHNIQUE = "Lean 4 theorems over a fuel-bounded model of the load graph + exhaustive differential correspondence over small graphs"
